@@ -175,14 +175,14 @@ def main():
                 rp = json.load(f)
             us = rp.get("units", [])
         else:
-            us = []
+            us = list(prop.units(rng, tier))
+            # regression corpus (concrete failing inputs of past detections, see harness/mkcorpus.py): appended, first round only
             corpus_dir = os.path.join(VERIF, "corpus", pid)
-            if os.path.isdir(corpus_dir):
+            if rnd == 0 and os.path.isdir(corpus_dir):
                 for fn in sorted(os.listdir(corpus_dir)):
                     if fn.endswith(".json"):
                         with open(os.path.join(corpus_dir, fn)) as f:
                             us.extend(json.load(f).get("units", []))
-            us.extend(prop.units(rng, tier))
 
         # ---- 3-5. run, compare, judge
         oc = evaluate(prop, us, timeout=getattr(prop, "CASE_TIMEOUT", 60))
